@@ -416,7 +416,7 @@ func TestVerifC20(t *testing.T) {
 						}
 					}
 					if viol != "" {
-						R.Violate(viol, desc, map[string]any{"part": "pipeline", "deadline": dl.String(), "s1": fmt.Sprint(s1), "s2": fmt.Sprint(s2)})
+						R.Violate(viol, desc, map[string]any{"rerun": true, "part": "pipeline", "deadline": dl.String(), "s1": fmt.Sprint(s1), "s2": fmt.Sprint(s2)})
 					}
 					if R.Executions%101 == 1 {
 						R.Sample(desc)
@@ -481,10 +481,10 @@ func TestVerifC20(t *testing.T) {
 				}
 				R.AddKey(fmt.Sprint(im.name, total))
 				if total == 0 {
-					R.Violate("notification-lost-by-crash", fmt.Sprintf("first flush script %v crashed %s (deliveries so far %d); after restarting from the notification log as of that instant the next flush delivered nothing: the notification is lost", s1, im.name, im.delivered), map[string]any{"part": "crash", "s1": fmt.Sprint(s1), "image": im.name})
+					R.Violate("notification-lost-by-crash", fmt.Sprintf("first flush script %v crashed %s (deliveries so far %d); after restarting from the notification log as of that instant the next flush delivered nothing: the notification is lost", s1, im.name, im.delivered), map[string]any{"rerun": true, "part": "crash", "s1": fmt.Sprint(s1), "image": im.name})
 				}
 				if im.name == "after the flush returned" && total != 1 {
-					R.Violate("duplicate-without-crash", fmt.Sprintf("flush completed and was logged, the next flush of the unchanged group delivered again (total %d)", total), map[string]any{"part": "crash", "s1": fmt.Sprint(s1), "image": im.name})
+					R.Violate("duplicate-without-crash", fmt.Sprintf("flush completed and was logged, the next flush of the unchanged group delivered again (total %d)", total), map[string]any{"rerun": true, "part": "crash", "s1": fmt.Sprint(s1), "image": im.name})
 				}
 			}
 		}
